@@ -499,10 +499,44 @@ def gen_results_text():
                 v.events.append(('betas[].' + a, k))
         elif U(f) == 'self._calculate_test':
             v.events += ct.events
+        elif U(f) == 'self._clear_stats' and not n.args and not n.keywords:
+            clear_calls.append(n)       # analysed separately (clear_attrs): position and content checked below
         elif U(f).startswith('self.') and not U(f).startswith('self.data.'):
             raise Untranslatable(f'_calculate_stats: call to unanalysed method {U(f)}')
     cs = tr.find('bioResults._calculate_stats')
+    clear_calls = []
     v = _Attrs('self.data', on_call); v.visit(cs)
+    # _clear_stats(): may only be called once, as the first statement after `if self.data is None: return`, and may
+    # only reset attributes (set to None / delete) -- which ones is generated and proved to be derived attributes only
+    cleared = []
+    if clear_calls:
+        body = [x for x in cs.body if not tr.ignorable(x)]
+        need(len(clear_calls) == 1 and len(body) >= 2 and isinstance(body[0], ast.If) and U(body[0].test) == 'self.data is None'
+             and [U(x) for x in body[0].body] == ['return'] and not body[0].orelse
+             and isinstance(body[1], ast.Expr) and body[1].value is clear_calls[0],
+             '_calculate_stats: _clear_stats() is not the first statement after the guard')
+        cl = tr.find('bioResults._clear_stats')
+        need([a.arg for a in cl.args.args] == ['self'], '_clear_stats: signature changed')
+        for st_ in [x for x in cl.body if not tr.ignorable(x)]:
+            if isinstance(st_, ast.Assign) and all(isinstance(t, ast.Attribute) and U(t.value) == 'self.data' for t in st_.targets) \
+                    and isinstance(st_.value, ast.Constant) and st_.value.value is None:
+                cleared += [t.attr for t in st_.targets]
+            elif isinstance(st_, ast.For) and U(st_.target) == 'b' and U(st_.iter) == 'self.data.betas' and not st_.orelse:
+                for x in st_.body:
+                    need(isinstance(x, ast.Assign) and isinstance(x.value, ast.Constant) and x.value.value is None
+                         and all(isinstance(t, ast.Attribute) and U(t.value) == 'b' for t in x.targets),
+                         '_clear_stats: unexpected statement on a Beta object: ' + U(x)[:80])
+                    cleared += ['betas[].' + t.attr for t in x.targets]
+            elif isinstance(st_, ast.For) and isinstance(st_.target, ast.Name) and isinstance(st_.iter, ast.Tuple) and not st_.orelse \
+                    and all(isinstance(e, ast.Constant) and isinstance(e.value, str) for e in st_.iter.elts):
+                nm = st_.target.id
+                need(len(st_.body) == 1 and isinstance(st_.body[0], ast.If) and U(st_.body[0].test) == f'hasattr(self.data, {nm})'
+                     and [U(x) for x in st_.body[0].body] == [f'delattr(self.data, {nm})'] and not st_.body[0].orelse,
+                     '_clear_stats: unexpected loop body: ' + U(st_)[:120])
+                cleared += [e.value for e in st_.iter.elts]
+            else:
+                raise Untranslatable('_clear_stats: unsupported statement: ' + U(st_)[:100])
+        need(len(cleared) == len(set(cleared)) and cleared, '_clear_stats: attribute cleared twice / nothing cleared')
     first, stored = {}, []
     for a, k in v.events:
         first.setdefault(a, k)
@@ -532,6 +566,8 @@ def gen_results_text():
             '   attributes of self.data whose first access is a read / attributes that are assigned *)\n'
             f'Definition stats_inputs : list string :=\n  {S(ins)}.\n'
             f'Definition stats_outputs : list string :=\n  {S(stored)}.\n'
+            '(* attributes reset (set to None / deleted) by _clear_stats(), called first by _calculate_stats *)\n'
+            f'Definition stats_cleared : list string :=\n  {S(cleared) if cleared else "nil"}.\n'
             f'(* from src/biogeme/results.py:{wp.lineno} bioResults.write_pickle *)\n'
             f'Definition pickle_name_attr : string := {coq_string(name_attr)}.\n'
             f'Definition pickle_ext : string := {coq_string(wb[0].value.args[1].value)}.\n')
